@@ -76,6 +76,37 @@ def run_case(case):
     hd = measure.intermediates(t, h0, h1, chol)
     Lops = [F.onebody(c.reshape(norb, norb)) for c in chol]
     Lnorm = max(1.0, max(np.linalg.norm(c.reshape(norb, norb), 2) for c in chol))
+    # walkers next to a node of the trial (single-determinant kinds, unrestricted entry): the overlap is tiny but not zero, the force
+    # bias huge but perfectly defined.  The node is located with the reference model (secant search along a complex line), then the walker
+    # is moved off it until |<psi|phi>| / (|psi||phi|) ~ 1e-7 .. 1e-9.
+    if kind in ("rhf", "uhf", "ghf") and "u" in t["entries"] and na >= 1 and case["rep"] % 2 == 0:
+        A_u, A_d = trials.rand_walker(rng, norb, na, nb)
+        B_u = rng.normal(size=A_u.shape) + 1j * rng.normal(size=A_u.shape)
+        f_ = lambda tt: complex(np.vdot(t["psi"], F.det(A_u + tt * B_u, A_d)))
+        t0_, t1_ = 0.0 + 0.0j, 0.4 + 0.3j
+        f0_, f1_ = f_(t0_), f_(t1_)
+        for _it in range(80):
+            if f1_ == f0_:
+                break
+            t0_, t1_, f0_ = t1_, t1_ - f1_ * (t1_ - t0_) / (f1_ - f0_), f1_
+            f1_ = f_(t1_)
+            if abs(f1_) < 1e-14 * abs(f_(0.0)):
+                break
+        if np.isfinite(abs(t1_)) and abs(f1_) < 1e-12 * abs(f_(0.0)):
+            for back in (1e-7, 1e-9):
+                wu_n = A_u + (t1_ + back * (1.0 + 0.5j)) * B_u
+                phi_n = F.det(wu_n, A_d)
+                ov_n = np.vdot(t["psi"], phi_n)
+                rel_n = abs(ov_n) / (np.linalg.norm(t["psi"]) * np.linalg.norm(phi_n))
+                if not (1e-12 < rel_n < 1e-4):
+                    continue
+                ref_n = np.array([np.vdot(t["psi"], L @ phi_n) / ov_n for L in Lops])
+                fb_n = np.asarray(trial._calc_force_bias(jnp.array(wu_n), jnp.array(A_d), hd, wd_))
+                scale_n = float(np.max(np.abs(ref_n)))
+                # both sides lose ~ eps / rel digits: judged relative to the (huge) force bias itself
+                events.append(judge("force-bias/near-node-u", float(np.max(np.abs(fb_n - ref_n))) / scale_n, max(1e-6, 1e-13 / rel_n), key0 + "/fb-near-node",
+                                    ovl_rel=float(rel_n), force_bias_scale=scale_n))
+                cnt["near_node"] = cnt.get("near_node", 0) + 1
     for entry in entries:
         ws, refs = [], []
         for _ in range(4):
